@@ -1,7 +1,7 @@
 (* C06 — whatever the library signs it also verifies.  For any signature scheme whose
    correctness law holds (an explicit premise, not an axiom). *)
 From Model Require Import Bytes Prim Tables Cert KAC Mapping Sig LS RI Crypto.
-From Proofs Require Import CryptoProofs.
+From Proofs Require Import CryptoProofs SignRT.
 Open Scope Z_scope.
 
 Theorem C06_encrypted_leaseset_sign_verify :
@@ -21,3 +21,29 @@ Print Assumptions C06_offline_signature_create_verify.
 Example C06_nonvacuous : exists q,
   offline_query (offline_created (fun _ _ => repeatN 9 64) 5 7 (repeatN 2 32) [] 7) (repeatN 1 32) = Some q /\ q_alg q = ALG_ED25519.
 Proof. eexists. vm_compute. split; reflexivity. Qed.
+
+(* RouterInfo and LeaseSet: the library signs the serialisation without the signature under
+   the identity's key, and that is exactly what its verifier checks *)
+Theorem C06_router_info_sign_verify :
+  forall verify (sign : bytes -> bytes -> bytes) (pub : bytes -> bytes), (forall sk m, verify ALG_ED25519 (pub sk) m (sign sk m) = true) ->
+  forall i sk m, ri_unsigned i = Ok m -> kac_signing_key (ri_ident i) = Some (pub sk) -> length (pub sk) = 32%nat ->
+    verdict verify (ri_verify_queries (ri_with_sig i (mkSig 7 (sign sk m)))) = true.
+Proof. exact ri_sign_verify. Qed.
+Print Assumptions C06_router_info_sign_verify.
+Theorem C06_lease_set_sign_verify :
+  forall verify (sign : bytes -> bytes -> bytes) (pub : bytes -> bytes), (forall sk m, verify ALG_ED25519 (pub sk) m (sign sk m) = true) ->
+  forall l sk m t, ls_unsigned l = Ok m -> kac_signing_key (ls_dest l) = Some (pub sk) ->
+    alg_of_type (kc_signing_type (k_kc (ls_dest l))) = Some ALG_ED25519 -> sign sk m <> [] ->
+    verdict verify (ls_verify_queries (ls_with_sig l (mkSig t (sign sk m)))) = true.
+Proof. exact ls_sign_verify. Qed.
+(* after the wire: verification is a function of the serialisation, the identity key and the
+   signature, all of which a parse of the serialised bytes reproduces (C01) *)
+Theorem C06_router_info_verification_depends_on_bytes_only : forall i i',
+  router_info_bytes i = router_info_bytes i' -> kac_signing_key (ri_ident i) = kac_signing_key (ri_ident i') ->
+  ri_sig i = ri_sig i' -> ri_verify_queries i = ri_verify_queries i'.
+Proof. exact ri_verification_is_function_of_bytes. Qed.
+Theorem C06_lease_set_verification_depends_on_bytes_only : forall l l',
+  lease_set_bytes l = lease_set_bytes l' -> kac_signing_key (ls_dest l) = kac_signing_key (ls_dest l') ->
+  ls_sig l = ls_sig l' -> kc_signing_type (k_kc (ls_dest l)) = kc_signing_type (k_kc (ls_dest l')) ->
+  ls_verify_queries l = ls_verify_queries l'.
+Proof. exact ls_verification_is_function_of_bytes. Qed.
